@@ -31,16 +31,10 @@ NA_GLUE = ("the deciding mechanism lives in MultiRecordLog / RollingReader / Rol
 
 NOT_APPLICABLE = {
     "C01": "restart == replay of the WAL by open_with_prefs over files, roll-over and GC: " + NA_GLUE,
-    "C02": "pending: torn-write check under construction",
     "C03": "the property is the order of flush / sync_data / sync_directory / remove_file calls issued by multi_record_log.rs and rolling/directory.rs: " + NA_GLUE,
-    "C08": "pending",
-    "C09": "pending",
-    "C10": "pending",
     "C11": "the failing retry loop is the `let Ok(..) else continue` of open_with_prefs, which cannot be executed without RollingReader: " + NA_GLUE,
-    "C12": "pending",
     "C13": "'nothing was written and the outcome says 0' is a statement about MultiRecordLog::{create_queue,delete_queue,append_records,truncate} and the writer's I/O: " + NA_GLUE,
     "C14": "lock-step runs of MultiRecordLog under different policies (and Instant::now): " + NA_GLUE,
-    "C15": "pending",
     "C18": "isolation is delivered by the HashMap<String, MemQueue> lookups and by the GC glue: " + NA_GLUE,
 }
 
@@ -192,5 +186,131 @@ CHECKS = {
         "bounds": {"quick": {"name_length": "0..30", "non_ascii": "one 2-byte character"}, "thorough": {"non_ascii": "one 2-byte or one 3-byte character", "solvers": "cadical + kissat"}},
         "outside": ["Directory::open scan / is_file filter / to_str", "FileNumber::filename (format!) and the round trip through it", "create_file / remove_file only touch such names (std::fs)", "names with 4-byte or several multi-byte characters"],
         "assumptions": ["no stub", "names are built with from_utf8_unchecked from bytes constrained to valid UTF-8 of the stated shape"],
+    },
+
+    "C15": {
+        "design_ref": "DESIGN.md section 4, C15",
+        "technique": "bounded model checking of the compiled Rust (Kani/CBMC): symbolic cursor and length at the real block size",
+        "level_text": ("Bounded model checking of the byte accounting of the writer: at the real 32 KiB geometry, for every start cursor "
+                       "< 4 blocks and every entry length <= 3 (thorough 10) blocks, write_record returns exactly the cursor advance, which "
+                       "equals padding + one header per frame + payload recomputed by a closed-form reference, is never 0, and write_frame "
+                       "returns padding + header + payload; at B=16 the same with real bytes. That GC bytes are added to the triggering "
+                       "call and that rejected calls report 0 is MultiRecordLog glue and not claimed."),
+        "level_note": "trusted: kani-compiler, CBMC, CaDiCaL; checksum oracle stub; cursor-only block device CurW; Serializable producing n zero bytes",
+        "filters": ["c15_real", "c07_rt_qf"],
+        "quick": {"harnesses": [("real", "c15_real_q*"), ("real", "c15_real_frame_q"), ("16", "c07_rt_qf*")], "jobs": 8, "timeout": 900},
+        "thorough": {"harnesses": [("real", "c15_real_*"), ("16", "c07_rt_qf*")], "jobs": 8, "timeout": 3000, "solvers": ["cadical", "kissat"]},
+        "rule": ("real geometry: one query with symbolic (start, len); small geometry: 18 (alignment, length, follower) cases with real bytes; "
+                 "non-trivial witnesses are cover properties (>= 4 frames, padding, empty first frame, exact block end, empty entry)"),
+        "samples": ["c15_real_q: start < 131072, len <= 98304 symbolic; assert n == end-start == ref_entry_footprint(start,len) > 0",
+                    "c15_real_frame_q: write_frame with symbolic legal payload length"],
+        "functions": ["recordlog::writer::RecordWriter::write_record", "frame::writer::FrameWriter::{write_frame,max_writable_frame_length}", "frame::header::Header::{for_payload,serialize}"],
+        "bounds": {"quick": {"B": 32768, "start": "< 4B", "len": "<= 3B"}, "thorough": {"len": "<= 10B", "solvers": "cadical + kissat"}},
+        "outside": ["GC bytes added to the triggering call, 0 for rejected / no-op calls, create/delete outcomes (MultiRecordLog)", "roll-over to the next file"],
+        "assumptions": [CRC_ASSUMPTION, DEV_ASSUMPTION],
+    },
+    "C09": {
+        "design_ref": "DESIGN.md section 4, C09",
+        "technique": "bounded model checking of the compiled Rust (Kani/CBMC): per-frame damage cases, symbolic payload and garbage bytes, checksum oracle",
+        "level_text": ("Bounded model checking of the real reader on a genuine 3-entry stream in which the payload bytes (symbolic garbage) "
+                       "or the checksum bytes (4 concrete alterations) of ONE frame are damaged, for every frame of the stream: the replay "
+                       "loop delivers exactly the other entries, intact and in order, reports exactly one corruption and terminates. "
+                       "That replay tolerates the missing entry at the queue level (gaps, re-created queues) is MultiRecordLog/MemQueues glue and not claimed."),
+        "level_note": "trusted: kani-compiler, CBMC, CaDiCaL; ideal-checksum oracle (a damaged frame fails its check; CRC collisions excluded); ArrW/ArrR devices; cases where the reader's cursor would fork are cut one call after the failure (DESIGN B18)",
+        "filters": ["c09_"],
+        "quick": {"harnesses": [("16", "c09_crc_q*")], "jobs": 14, "timeout": 1200},
+        "thorough": {"harnesses": [("16", "c09_*")], "jobs": 16, "timeout": 3000},
+        "rule": ("case = (length triple, frame index, damage kind, variant); lengths pairwise distinct; hit frame enumerated over every frame of "
+                 "the stream; non-trivial = the hit frame belongs to a multi-frame entry or is followed by other entries; counted from the symex log"),
+        "samples": ["c09_crc_q_a_f2: lengths (5,20,1), frame 2 = Middle frame of the 3-frame entry: payload <- 9 symbolic bytes; checksum ^0x01 / ^0x80.. / zeroed / 0xff",
+                    "c09_crc_q_b_f1: lengths (9,0,30), frame 1 = the empty entry's header-only frame"],
+        "functions": STREAM_FUNCS,
+        "bounds": {"quick": {"B": 16, "entries": 3, "triples": "(5,20,1), (9,0,30)", "damage": "payload (symbolic), checksum (4 variants)"},
+                   "thorough": {"triples": "+ (1,40,3), (2,3,25), (16,10,0)", "damage": "+ type byte -> other valid type"}},
+        "outside": ["queue-level tolerance of the missing entry (open_with_prefs, MemQueues::ack_position)", "damage to more than one frame", "B = 32768"],
+        "assumptions": [CRC_ASSUMPTION, DEV_ASSUMPTION, "the harness drives the reader like open_with_prefs does: errors are skipped, Ok(None) ends the replay"],
+    },
+    "C08": {
+        "design_ref": "DESIGN.md section 4, C08",
+        "technique": "bounded model checking of the compiled Rust (Kani/CBMC): per-frame header/length damage cases + symbolic entry buffers against a reference decoder",
+        "level_text": ("Bounded model checking of (i) the real reader on a genuine stream with ONE frame header damaged -- type byte to each "
+                       "other valid and to invalid values, header or whole frame zero-filled, length field to 0 / L-1 / L+1 / B / 0xffff -- for "
+                       "every frame: everything delivered is byte-identical to a written entry, in writing order, at most once, the hit entry "
+                       "is not delivered, the reader terminates; (ii) MultiPlexedRecord::deserialize on symbolic buffers: an accepted entry "
+                       "carries exactly the tag, queue, position and batch items its bytes spell, a batch is accepted only if it parses "
+                       "completely. 'Only queue/position/payload of an earlier append' at the API is open_with_prefs glue and not claimed."),
+        "level_note": "trusted: kani-compiler, CBMC, CaDiCaL; ideal-checksum oracle; from_utf8 stub (ASCII queue names); concrete payload patterns when a damaged length makes the reader parse payload bytes as headers",
+        "filters": ["c08_"],
+        "quick": {"harnesses": [("16", "c08_hdr_q*"), ("16", "c08_len_q*"), ("real", "c08_deser_q*")], "jobs": 14, "timeout": 1200},
+        "thorough": {"harnesses": [("16", "c08_hdr_*"), ("16", "c08_len_*"), ("real", "c08_deser_*")], "jobs": 16, "timeout": 3000},
+        "rule": ("stream cases = (length triple, frame, header damage kind, variant), all frames x all variants; entry cases = (buffer length N, "
+                 "queue-name length) with tag, position, batch headers and payload bytes symbolic; counted from the symex log"),
+        "samples": ["c08_len_q_a_f3: lengths (5,20,1), Last frame of the 3-frame entry: length field -> 0, 1, 3, 16, 0xffff",
+                    "c08_hdr_q_a_f1: First frame: type -> Middle/Last/Full, type -> 0/5/0xff, header zero-filled, frame zero-filled",
+                    "c08_deser_q_n26_q2: 26 symbolic bytes, 2-byte queue name: accepted => fields == bytes, batch parses completely"],
+        "functions": STREAM_FUNCS + ["record::MultiPlexedRecord::deserialize", "record::MultiRecord::{new,new_unchecked,next,reset_position}", "record::RecordType::try_from"],
+        "bounds": {"quick": {"B": 16, "triple": "(5,20,1)", "entry_buffer": "<= 36 bytes"}, "thorough": {"triples": "+ (9,0,30), (1,40,3), (2,3,25)", "entry_buffer": "<= 40 bytes, names 0..3 bytes"}},
+        "outside": ["mapping of replay errors to Corruption and 'open succeeds or reports' (open_with_prefs)", "a complete authentic frame embedded by the user inside a payload and exposed by length damage (counts as checksum collision; DESIGN section 5)",
+                    "overwrites spanning several frames or files", "non-ASCII queue names"],
+        "assumptions": [CRC_ASSUMPTION, DEV_ASSUMPTION, "S-utf8: core::str::from_utf8 replaced by a stub that assumes ASCII"],
+    },
+    "C12": {
+        "design_ref": "DESIGN.md section 4, C12",
+        "technique": "bounded model checking of the compiled Rust (Kani/CBMC): every damage kind and every byte cut on each frame of a 6-frame entry; batch buffers under every truncation",
+        "level_text": ("Bounded model checking that a multi-frame WAL entry is delivered all-or-nothing: a 6-frame entry between two small "
+                       "ones, every frame of it damaged in every modelled way (payload, checksum, type, length incl. length -> 0) and the "
+                       "stream cut after every byte of it: the entry is never delivered partially or spliced, neighbours are unaffected. "
+                       "At the batch level: a batch serialized by the real MultiRecord/MultiPlexedRecord code round-trips, and every "
+                       "truncation of it is either rejected or a whole number of leading items. That append_records puts the whole batch "
+                       "into ONE entry and applies it after the write is MultiRecordLog glue and not claimed."),
+        "level_note": "trusted: kani-compiler, CBMC, CaDiCaL; ideal-checksum oracle; from_utf8 stub; forking cases cut one call after the failure (B18)",
+        "filters": ["c12_"],
+        "quick": {"harnesses": [("16", "c12_big_q*"), ("16", "c12_cut_q*"), ("real", "c12_batch_q*")], "jobs": 14, "timeout": 1500},
+        "thorough": {"harnesses": [("16", "c12_big_*"), ("16", "c12_cut_*"), ("real", "c12_batch_*")], "jobs": 16, "timeout": 3000},
+        "rule": "case = (frame of the large entry, damage kind, variant) or (cut offset) or (batch shape, truncation point); counted from the symex log",
+        "samples": ["c12_big_q_c_f3: lengths (1,40,3): entry 1 = First+4 Middle+Last; frame 3 (Middle): payload garbage, 4 checksum variants, 3 type changes, 5 length changes",
+                    "c12_cut_q_c_c040: cuts 40..45 inside the large entry", "c12_batch_q_1_0_2: batch of payload lengths 1,0,2 at symbolic start position, all 51 truncations"],
+        "functions": STREAM_FUNCS + ["record::MultiRecord::{serialize,serialize_with_pos,new,new_unchecked,next}", "record::MultiPlexedRecord::{serialize,deserialize}"],
+        "bounds": {"quick": {"B": 16, "entry": "40 bytes = 6 frames", "batch": "<= 3 records of <= 3 bytes"}, "thorough": {"entries": "+ 30 bytes = 5 frames", "batch": "all shapes over {0,1,3}"}},
+        "outside": ["MultiRecordLog::append_records (one batch = one entry; applied after the write)", "entries spanning two WAL files", "truncation legitimately removing a leading part"],
+        "assumptions": [CRC_ASSUMPTION, DEV_ASSUMPTION, "S-utf8 stub"],
+    },
+    "C02": {
+        "design_ref": "DESIGN.md section 4, C02",
+        "technique": "bounded model checking of the compiled Rust (Kani/CBMC): every byte cut of a written stream, symbolic payload bytes, checksum oracle",
+        "level_text": ("Bounded model checking of torn-write atomicity of the WAL byte stream: three entries written by the real writer into "
+                       "zero-prefilled blocks; for EVERY cut offset c the image 'first c bytes, zeros after' is recovered by the real reader "
+                       "driven like the replay loop: exactly the entries completed before the cut are delivered, never a partial one. "
+                       "Crashes inside file creation/removal or GC, the writer resuming behind the torn tail (RollingReader::into_writer) "
+                       "and usability after recovery are file-layer / MultiRecordLog glue and not claimed."),
+        "level_note": "trusted: kani-compiler, CBMC, CaDiCaL; ideal-checksum oracle for the torn frame; effects reach the zero-prefilled file in program order (process-crash model)",
+        "filters": ["c02_"],
+        "quick": {"harnesses": [("16", "c02_torn_q*")], "jobs": 14, "timeout": 1500},
+        "thorough": {"harnesses": [("16", "c02_torn_*")], "jobs": 16, "timeout": 3000},
+        "rule": "case = (length triple, cut offset), every offset 0..=end; non-trivial = the cut falls inside a frame payload; counted from the symex log",
+        "samples": ["c02_torn_q_a_c036: lengths (5,20,1), cuts 36..41 (inside the Middle frame of entry 1)"],
+        "functions": STREAM_FUNCS,
+        "bounds": {"quick": {"B": 16, "triple": "(5,20,1): 73 cuts"}, "thorough": {"triples": "+ (9,0,30), (1,40,3), (2,3,25), (16,10,0)"}},
+        "outside": ["crash during create_file / set_len / remove_file / GC (std::fs)", "RollingReader::into_writer resuming behind the torn tail", "behaviour of further operations after recovery; second crash", "in-flight truncate / delete_queue"],
+        "assumptions": [CRC_ASSUMPTION, DEV_ASSUMPTION, "if the missing tail of the torn frame was all zeros the image equals that of a later cut, which is enumerated as its own case"],
+    },
+    "C10": {
+        "design_ref": "DESIGN.md section 4, C10",
+        "technique": "bounded model checking of the compiled Rust (Kani/CBMC): fully symbolic buffers, Kani's built-in panic/overflow/bounds checks",
+        "level_text": ("Bounded model checking of no-panic and termination for the parsers recovery runs on untrusted bytes: "
+                       "MultiPlexedRecord::deserialize and MultiRecord iteration on fully symbolic buffers of every length up to 24 (thorough 30) "
+                       "bytes -- no panic, overflow or out-of-bounds slice on any path, at most len/12 items -- and the frame/record reader on "
+                       "every length-damaged frame of a stream reaches the end of the log within (frames + blocks + 2) calls. Directory "
+                       "scanning, short/stray/transposed files and MultiRecordLog accessors are std::fs / glue and not claimed."),
+        "level_note": "trusted: kani-compiler (its panic / arithmetic-overflow / bounds instrumentation), CBMC, CaDiCaL; from_utf8 stub; checksum oracle",
+        "filters": ["c10_", "c08_len_q"],
+        "quick": {"harnesses": [("real", "c10_*_q*"), ("16", "c08_len_q*")], "jobs": 14, "timeout": 1200},
+        "thorough": {"harnesses": [("real", "c10_*"), ("16", "c08_len_q*")], "jobs": 16, "timeout": 3000},
+        "rule": "case = one buffer length with all bytes symbolic (parsers), or one length-damage case (reader progress bound); counted from the symex log",
+        "samples": ["c10_deser_q_n24: 24 symbolic bytes incl. tag, name length and batch headers", "c10_mrec_q_n25: MultiRecord::new_unchecked over 25 symbolic bytes, iterate to first error"],
+        "functions": ["record::MultiPlexedRecord::deserialize", "record::MultiRecord::{new,new_unchecked,next}", "frame::reader::FrameReader::read_frame", "recordlog::reader::RecordReader::{go_next,read_record}"],
+        "bounds": {"quick": {"buffer": "0,10,11,12,20,24 (entries); 0,5,11,12,13,16,24,25 (batches)"}, "thorough": {"buffer": "every length 0..=30"}},
+        "outside": ["Directory::open / RollingReader (short, empty, stray, transposed files)", "allocation bounds", "MultiRecordLog read accessors", "arbitrary block content for the frame reader (symbolic cursors: > 28 GB, DESIGN B11)"],
+        "assumptions": [CRC_ASSUMPTION, "S-utf8 stub (ASCII names)"],
     },
 }
